@@ -1,9 +1,451 @@
-"""C19 oracle (instructions vs actual deltas) - installed as a hook on the bench."""
+"""C19 oracle: every instruction line the library emits is parsed back to (amount, unit, substance / vessel) and
+compared with the simulator's own record of what happened; the two rescaling helpers are monitored at their call
+sites (value x prefix out must denote the same physical amount as value x prefix in).
+
+Unparseable lines are counted as skipped, never as violations (wording may legitimately change)."""
+from __future__ import annotations
+
+import re
+from fractions import Fraction as F
+
+from . import model as M
+
+NUM = r'(-?\d+(?:\.\d+)?(?:[eE][+-]?\d+)?)'
+RE_TRANSFER = re.compile(r'^Transfer ' + NUM + r' (\S+) of (.+) to (.+)$')
+RE_ITEM = re.compile(NUM + r' (\S+) of ([^,]+?)(?=,| to |\.$|$)')
+RE_DILUTE = re.compile(r'^Dilute with ' + NUM + r' (\S+) of (.+)\.$')
+RE_FILL = re.compile(r'^Fill with ' + NUM + r' (\S+) of (.+)\.$')
+RE_FROM = re.compile(r'^Add ' + NUM + r' mL of (.+) to ' + NUM + r' mL of (.+)\.$')
+RE_STEP_DILUTE = re.compile(r"^Dilute '(.+)' in '(.+)' to (.+) by adding " + NUM + r" (\S+) of '(.+)'\.$")
+RE_STEP_FILL = re.compile(r"^Fill '(.+)' with '(.+)' up to (.+) by adding " + NUM + r" (\S+)\.$")
+RE_STEP_FILL_PLATE = re.compile(r"^Fill '(.+)' with '(.+)' up to (.+) by adding: (.*)\.$")
+RE_STEP_TRANSFER = re.compile(r"^Transfer (.+?) from\s+'(.+)' to '(.+)'\.$", re.S)
+
+_monitor_log = []
+
+
+def install_monitor(rep):
+    """Wrap the two rescaling helpers of one replica (pass-through; records every call)."""
+    U = rep.Unit
+    if getattr(U, '_verif_wrapped', False):
+        return
+    g = U.get_human_readable_unit
+    f = U.convert_from_storage_to_standard_format
+
+    def g_wrap(value, unit):
+        out = g(value, unit)
+        _monitor_log.append(('human', value, unit, out))
+        return out
+
+    def f_wrap(what, quantity):
+        out = f(what, quantity)
+        _monitor_log.append(('standard', what, quantity, out))
+        return out
+    U.get_human_readable_unit = staticmethod(g_wrap)
+    U.convert_from_storage_to_standard_format = staticmethod(f_wrap)
+    U._verif_wrapped = True
+
+
+def drain_monitor(b, key):
+    """Check and clear the helper calls recorded since the last drain."""
+    W = b.world
+    u = W.units
+    calls, _monitor_log[:] = list(_monitor_log), []
+    for rec in calls:
+        if rec[0] == 'human':
+            _, value, unit, (ov, ounit) = rec
+            try:
+                mi, bi = M.split_unit(unit)
+                mo, bo = M.split_unit(ounit)
+            except M.ModelError:
+                continue
+            b.stats['obs:rescale_calls'] += 1
+            vin = abs(F(value)) * mi
+            vout = abs(F(ov)) * mo
+            if bi != bo or abs(vin - vout) > abs(vin) * F(1, 10 ** 9) + F(1, 10 ** 30):
+                b.V('C19', 'rescale', key + ('get_human_readable_unit', bi),
+                    f"get_human_readable_unit({value!r}, {unit!r}) -> ({ov!r}, {ounit!r}): {float(vin):.6g} {bi} became {float(vout):.6g} {bo}")
+        else:
+            _, what, quantity, (ov, ounit) = rec
+            b.stats['obs:rescale_calls'] += 1
+            try:
+                mo, bo = M.split_unit(ounit)
+            except M.ModelError:
+                continue
+            if isinstance(what, b.rep.Substance):
+                ms = W.msubs.get(what.name)
+                if ms is None:
+                    continue
+                amt = F(quantity) * u.amt_mult(ms)
+                exp = amt * ms.per_amount(bo)
+            else:
+                exp = F(quantity) * u.vol_mult
+                if bo != 'L':
+                    continue
+            got = F(ov) * mo
+            tol = abs(exp) * F(1, 10 ** 9) + mo * F(1, 10 ** u.p)
+            if abs(got - exp) > tol:
+                b.V('C19', 'rescale', key + ('convert_from_storage_to_standard_format', bo),
+                    f"convert_from_storage_to_standard_format({getattr(what, 'name', what)!r}, {quantity!r}) -> ({ov!r}, {ounit!r}): denotes {float(got):.6g} {bo}, stored amount is {float(exp):.6g} {bo}")
+
+
+def shown_ok(b, shown: str, unit: str, exact_base: F, slack_base: F = F(0)):
+    """Is `shown unit` the exact value correct to the displayed precision?  -> (ok, base unit)"""
+    u = b.world.units
+    mult, base = M.split_unit(unit)
+    d = u.precision(unit)
+    # the library rounds intermediate values to p decimals in the *base* unit (e.g. litres) before rescaling
+    tol = F(1, 2 * 10 ** d) * mult + slack_base + abs(exact_base) * F(1, 10 ** 9) + mult * F(1, 10 ** 9) + F(1, 10 ** u.p)
+    return abs(F(shown) * mult - exact_base) <= tol, base
+
+
+def new_lines(old: str, new: str):
+    """Lines appended to an instruction text, or None if the old text is not a prefix of the new one."""
+    if old is None:
+        old = ''
+    if not new.startswith(old):
+        return None
+    rest = new[len(old):]
+    return [ln for ln in rest.split('\n') if ln.strip()]
+
+
+def total_in(W, amounts: dict, base: str) -> F:
+    return sum((a * W.msubs[n].per_amount(base) for n, a in amounts.items()), F(0))
+
+
+# --------------------------------------------------------------------------- bench hook
+
+def hook(b, ev, named, key, info):
+    op = ev['op']
+    W = b.world
+    try:
+        if op == 'new_container':
+            check_constructor(b, ev, named[0][1], key)
+        elif op == 'transfer' and 'transfer' in info:
+            check_transfer(b, ev, info['transfer'], named, key)
+        elif op == 'dilute' and 'dilute' in info:
+            check_dilute(b, ev, info['dilute'], named[0][1], key)
+        elif op == 'fill_to' and 'fill' in info:
+            check_fill(b, ev, info['fill'], named[0][1], key)
+        elif op == 'solution':
+            check_solution(b, ev, named, key)
+        elif op == 'solution_from':
+            check_solution_from(b, ev, named, key)
+    finally:
+        drain_monitor(b, key[:1])
+
+
+def check_items(b, text, contents_model: M.MVessel, key, clause, what):
+    """'Add 1.0 g of NaCl, 99.0 mL of water to ...' items vs the contents of the new container."""
+    W = b.world
+    items = RE_ITEM.findall(text)
+    if not items:
+        b.stats['instr:skipped'] += 1
+        return
+    seen = set()
+    for shown, unit, name in items:
+        name = name.strip()
+        if name not in W.msubs:
+            b.stats['instr:skipped'] += 1
+            continue
+        try:
+            mult, base = M.split_unit(unit)
+        except M.ModelError:
+            b.stats['instr:skipped'] += 1
+            continue
+        seen.add(name)
+        amt = contents_model.contents.get(name, F(0))
+        exact = amt * W.msubs[name].per_amount(base)
+        ok, _ = shown_ok(b, shown, unit, exact, 20 * W.q_amt(name) * W.msubs[name].per_amount(base))
+        b.stats['instr:checked'] += 1
+        if not ok:
+            b.V('C19', clause, key + (base, W.msubs[name].kind),
+                f"{what}: instruction says '{shown} {unit} of {name}', contents hold {float(exact / mult):.9g} {unit}")
+    for n, a in contents_model.contents.items():
+        if a > 20 * W.q_amt(n) and n not in seen and len(items) > 0:
+            b.V('C19', clause + '_missing', key, f"{what}: {n} ({float(a):.6g}) was added but is not named in '{text[:120]}'")
+
+
+def check_constructor(b, ev, c, key):
+    if not ev.get('contents'):
+        return
+    text = c.instructions
+    if not text.startswith('Add '):
+        b.stats['instr:skipped'] += 1
+        return
+    check_items(b, text.split(' to a ')[0] if ' to a ' in text else text, b.world.alpha_container(c), key, 'constructor_amount', c.name)
+
+
+def dest_vessels(b, op, obj, cells):
+    if op.kind == 'container':
+        return [(None, obj)]
+    return [(c, obj.wells[c]) for c in cells]
+
+
+def check_transfer(b, ev, tinfo, named, key):
+    s, d, plan, before_s, before_d = tinfo
+    W = b.world
+    if 'pairs' not in plan or plan.get('status') not in ('must_accept', 'dont_care'):
+        return
+    moved = plan.get('moved')
+    if moved is None:
+        return
+    rd = named[-1][1]
+    rs = named[0][1]
+    # destination side: one new line per pair that ended in this vessel
+    per_dest = {}
+    for k, (cs, cd) in enumerate(plan['pairs']):
+        per_dest.setdefault(cd, []).append((cs, moved[k]))
+    for cd, pairs in per_dest.items():
+        old = (d.base if cd is None else d.base.wells[cd]).instructions
+        res = rd if cd is None else rd.wells[cd]
+        lines = new_lines(old, res.instructions)
+        if lines is None:
+            b.V('C19', 'instructions_replaced', key + ('d',), f"{res.name}: earlier instructions are no longer a prefix of the new text")
+            continue
+        tl = [ln for ln in lines if ln.startswith('Transfer ')]
+        if len(tl) != len(pairs):
+            b.stats['instr:skipped'] += 1
+            continue
+        for ln, (cs, mv) in zip(tl, pairs):
+            m = RE_TRANSFER.match(ln)
+            if not m:
+                b.stats['instr:skipped'] += 1
+                continue
+            shown, unit, sname, dname = m.groups()
+            try:
+                mult, base = M.split_unit(unit)
+            except M.ModelError:
+                b.stats['instr:skipped'] += 1
+                continue
+            exact = total_in(W, mv, base)
+            slack = sum((20 * W.q_amt(n) * W.msubs[n].per_amount(base) for n in mv), F(0)) + abs(exact) * plan.get('relerr_max', F(0))
+            ok, _ = shown_ok(b, shown, unit, exact, slack)
+            b.stats['instr:checked'] += 1
+            has_liquid = any(W.msubs[n].kind == M.LIQUID for n in mv)
+            if not ok:
+                b.V('C19', 'transfer_amount', key + (base, 'liquid' if has_liquid else 'no-liquid'),
+                    f"{res.name}: instruction says '{ln}', actually moved {float(exact / mult):.9g} {unit}")
+            src_name = (s.base if cs is None else s.base.wells[cs]).name
+            if src_name not in sname or res.name not in dname:
+                b.V('C19', 'transfer_names', key, f"instruction '{ln}' does not name source {src_name!r} / destination {res.name!r}")
+    # source side: the earlier text must survive
+    for cs in set(p[0] for p in plan['pairs']):
+        old = (s.base if cs is None else s.base.wells[cs]).instructions
+        res = rs if cs is None else rs.wells[cs]
+        if new_lines(old, res.instructions) is None:
+            b.V('C19', 'instructions_replaced', key + ('s',),
+                f"{res.name}: the source's instructions were replaced: {res.instructions[-120:]!r}")
+            break
+
+
+def check_dilute(b, ev, dinfo, res, key):
+    t, pre, info = dinfo
+    W = b.world
+    lines = new_lines(t.base.instructions, res.instructions)
+    if lines is None:
+        b.V('C19', 'instructions_replaced', key, f"{res.name}: earlier instructions are no longer a prefix of the new text")
+        return
+    post = W.alpha_container(res)
+    solvent = ev['solvent']
+    added = post.contents.get(solvent, F(0)) - pre.contents.get(solvent, F(0))
+    dl = [ln for ln in lines if ln.startswith('Dilute with')]
+    if not dl:
+        if added > 100 * W.q_amt(solvent):
+            b.stats['instr:skipped'] += 1
+        return
+    m = RE_DILUTE.match(dl[-1])
+    if not m:
+        b.stats['instr:skipped'] += 1
+        return
+    shown, unit, name = m.groups()
+    mult, base = M.split_unit(unit)
+    exact = added * W.msubs[solvent].per_amount(base)
+    ok, _ = shown_ok(b, shown, unit, exact, 20 * W.q_amt(solvent) * W.msubs[solvent].per_amount(base))
+    b.stats['instr:checked'] += 1
+    if not ok or name != solvent:
+        b.V('C19', 'dilute_amount', key + (base,), f"{res.name}: instruction says '{dl[-1]}', actually added {float(exact / mult):.9g} {unit} of {solvent}")
+
+
+def check_fill(b, ev, finfo, res, key):
+    t, exp, mpre = finfo
+    W = b.world
+    solvent = ev['solvent']
+    cells = [None] if t.kind == 'container' else t.cells
+    for cell in cells:
+        old = (t.base if cell is None else t.base.wells[cell]).instructions
+        r = res if cell is None else res.wells[cell]
+        pre = mpre if cell is None else mpre.well(cell)
+        lines = new_lines(old, r.instructions)
+        if lines is None:
+            b.V('C19', 'instructions_replaced', key, f"{r.name}: earlier instructions are no longer a prefix of the new text")
+            return
+        fl = [ln for ln in lines if ln.startswith('Fill with')]
+        if not fl:
+            b.stats['instr:skipped'] += 1
+            continue
+        m = RE_FILL.match(fl[-1])
+        if not m:
+            b.stats['instr:skipped'] += 1
+            continue
+        shown, unit, name = m.groups()
+        mult, base = M.split_unit(unit)
+        post = W.alpha_container(r)
+        added = post.contents.get(solvent, F(0)) - pre.contents.get(solvent, F(0))
+        exact = added * W.msubs[solvent].per_amount(base)
+        ok, _ = shown_ok(b, shown, unit, exact, 20 * W.q_amt(solvent) * W.msubs[solvent].per_amount(base))
+        b.stats['instr:checked'] += 1
+        if not ok or name != solvent:
+            b.V('C19', 'fill_amount', key + (base,), f"{r.name}: instruction says '{fl[-1]}', actually added {float(exact / mult):.9g} {unit} of {solvent}")
+            return
+
+
+def check_solution(b, ev, named, key):
+    W = b.world
+    sol = named[-1][1]
+    text = sol.instructions
+    if not text.startswith('Add '):
+        b.stats['instr:skipped'] += 1
+        return
+    if isinstance(ev['solvent'], list):
+        # "Add <solutes> to <v> <unit> of <solvent container>."
+        head, _, tail = text.partition(' to ')
+        m = re.match(NUM + r' (\S+) of (.+)\.$', tail)
+        post = W.alpha_container(sol)
+        solutes_only = M.MVessel('x', None, {n: post.contents.get(n, F(0)) for n in ev['solutes']})
+        check_items(b, head, solutes_only, key, 'solution_amount', sol.name)
+        if m and len(named) == 2:
+            shown, unit, _name = m.groups()
+            resid = W.alpha_container(named[0][1])
+            # volume drawn from the solvent container = what the solution holds beyond the added solutes
+            rest = M.MVessel('y', None, {n: a for n, a in post.contents.items() if n not in ev['solutes']})
+            exact = W.model.volume(rest)
+            mult, base = M.split_unit(unit)
+            if base == 'L':
+                ok, _ = shown_ok(b, shown, unit, exact, W.tol_volume(rest))
+                b.stats['instr:checked'] += 1
+                if not ok:
+                    b.V('C19', 'solution_amount', key + ('solvent-volume',),
+                        f"{sol.name}: instruction says '{tail}', the aliquot of the solvent container is {float(exact / mult):.9g} {unit}")
+        return
+    check_items(b, text.split(' to a ')[0], W.alpha_container(sol), key, 'solution_amount', sol.name)
+
+
+def check_solution_from(b, ev, named, key):
+    W = b.world
+    sol = named[-1][1]
+    m = RE_FROM.match(sol.instructions.split('\n')[-1])
+    if not m:
+        b.stats['instr:skipped'] += 1
+        return
+    y, solvent_name, x, src_name = m.groups()
+    b.stats['instr:checked'] += 1
+    post = W.alpha_container(sol)
+    # x mL of source + y mL of solvent = total volume of the new solution (volumes are additive)
+    total = W.model.volume(post)
+    u = W.units
+    d = u.precision('mL')
+    tol = F(1, 10 ** d) * F(1, 1000) + total * F(1, 10 ** 6)
+    if abs((F(x) + F(y)) * F(1, 1000) - total) > tol:
+        b.V('C19', 'solution_from_amount', key, f"{sol.name}: instruction says '{sol.instructions}', but the solution holds {float(total * 1000):.9g} mL")
 
 
 def install(bench):
-    pass
+    install_monitor(bench.rep)
+    _monitor_log[:] = []
+    bench.instr_hooks.append(hook)
 
+
+# --------------------------------------------------------------------------- recipe steps (Engine B)
 
 def check_recipe_instructions(run):
-    pass
+    """RecipeStep.instructions of a baked recipe vs the ledger."""
+    W = run.W
+    b = run.bench
+    R = run.recipe
+    kid = run.first_excuse(('C19',))
+    if len(R.steps) != len(run.steps):
+        return
+    for i, (rs, st) in enumerate(zip(R.steps, run.steps)):
+        text = rs.instructions
+        c = st['call']
+        k = st['kind']
+        key = ('recipe.' + k,)
+        before, after = run.snap[i], run.snap[i + 1]
+        if not isinstance(text, str) or not text:
+            b.V('C19', 'step_instruction_missing', key, f"step {i} ({k}) has no instructions", kid)
+            continue
+        if k == 'dilute':
+            m = RE_STEP_DILUTE.match(text)
+            if not m:
+                b.stats['instr:skipped'] += 1
+                continue
+            solute, dest, conc, shown, unit, solvent = m.groups()
+            name = c['tgt'][0]
+            mb, ma = before.get(name), after.get(name)
+            if mb is None or ma is None:
+                continue
+            added = ma.contents.get(c['solvent'], F(0)) - mb.contents.get(c['solvent'], F(0))
+            mult, base = M.split_unit(unit)
+            exact = added * W.msubs[c['solvent']].per_amount(base)
+            ok, _ = shown_ok(b, shown, unit, exact, 20 * W.q_amt(c['solvent']) * W.msubs[c['solvent']].per_amount(base))
+            b.stats['instr:checked'] += 1
+            if not ok or solvent != c['solvent'] or solute != c['solute']:
+                b.V('C19', 'step_dilute_amount', key + (base,), f"step {i}: '{text}', the eager reference added {float(exact / mult):.9g} {unit} of {c['solvent']}", kid)
+        elif k == 'fill_to':
+            name = c['tgt'][0]
+            mb, ma = before.get(name), after.get(name)
+            if mb is None or ma is None:
+                continue
+            solvent = c['solvent']
+            if isinstance(mb, M.MVessel):
+                m = RE_STEP_FILL.match(text)
+                if not m:
+                    b.stats['instr:skipped'] += 1
+                    continue
+                dest, sv, q, shown, unit = m.groups()
+                added = ma.contents.get(solvent, F(0)) - mb.contents.get(solvent, F(0))
+                mult, base = M.split_unit(unit)
+                exact = added * W.msubs[solvent].per_amount(base)
+                ok, _ = shown_ok(b, shown, unit, exact, 40 * W.q_amt(solvent) * W.msubs[solvent].per_amount(base) + 2 * run.fill_slack(ma, solvent) * W.msubs[solvent].per_amount(base))
+                b.stats['instr:checked'] += 1
+                if not ok or sv != solvent:
+                    b.V('C19', 'step_fill_amount', key + (base,), f"step {i}: '{text}', the eager reference added {float(exact / mult):.9g} {unit} of {solvent}", kid)
+            else:
+                m = RE_STEP_FILL_PLATE.match(text)
+                if not m:
+                    b.stats['instr:skipped'] += 1
+                    continue
+                groups = re.findall(NUM + r' (\S+) to \[', m.group(4))
+                if not groups:
+                    added_any = any(ma.well(cell).contents.get(solvent, F(0)) - mb.well(cell).contents.get(solvent, F(0)) > 100 * W.q_amt(solvent) for cell in ma.all_cells())
+                    if added_any:
+                        b.stats['instr:skipped'] += 1
+                    continue
+                unit = groups[0][1]
+                mult, base = M.split_unit(unit)
+                listed = [F(g[0]) for g in groups]
+                d = W.units.precision(unit)
+                b.stats['instr:checked'] += 1
+                for cell in ma.all_cells():
+                    added = ma.well(cell).contents.get(solvent, F(0)) - mb.well(cell).contents.get(solvent, F(0))
+                    exact = added * W.msubs[solvent].per_amount(base) / mult
+                    tol = F(1, 2 * 10 ** d) + abs(exact) * F(1, 10 ** 8) + F(1, 10 ** 8)
+                    if exact <= tol:
+                        continue
+                    if not any(abs(x - exact) <= tol for x in listed):
+                        b.V('C19', 'step_fill_amount', key + (base, 'plate'),
+                            f"step {i}: '{text[:160]}': well {cell} received {float(exact):.9g} {unit}, which is not among the listed amounts", kid)
+                        break
+        elif k == 'transfer':
+            m = RE_STEP_TRANSFER.match(text)
+            if not m:
+                b.stats['instr:skipped'] += 1
+                continue
+            b.stats['instr:checked'] += 1
+            q, sname, dname = m.groups()
+            if q != c['q'] or c['src'][0] not in sname or c['dst'][0] not in dname:
+                b.V('C19', 'step_transfer_text', key, f"step {i}: '{text}' does not state {c['q']} from {c['src'][0]} to {c['dst'][0]}", kid)
+        else:
+            b.stats['instr:other_step_lines'] += 1
+    drain_monitor(b, ('recipe',))
